@@ -220,7 +220,10 @@ impl<'p> CoroutinePool<'p> {
         let timeout_time = get_timeout_time(dur);
         loop {
             _ = self.try_timeout_schedule_task(timeout_time)?;
-            if self.get_running_size() == 0 {
+            // no worker left is not enough: tasks accepted earlier may still be queued when
+            // the workers' places were taken by coroutines handed in through `submit_co`;
+            // the next round grows a worker for them
+            if self.get_running_size() == 0 && self.task_queue.is_empty() {
                 break;
             }
             if timeout_time.saturating_sub(now()) == 0 {
